@@ -97,6 +97,10 @@ func patterns() []pattern {
 		{"one-hot-first", oneHot(func(n int) int { return 0 }), false},
 		{"one-hot-last", oneHot(func(n int) int { return n - 1 }), false},
 		{"one-hot-lane-boundary", oneHot(func(n int) int { return (n / 8) * 8 % n }), false},
+		// parallel, not bit-identical: 1 - cos rounds to either side of zero
+		{"parallel-scaled-by-3", set(func(i int) (float32, float32) { v := float32((i*37)%101)*0.173 + 0.3; return v, 3 * v }), false},
+		{"parallel-scaled-by-0.7", set(func(i int) (float32, float32) { v := float32((i*53)%89)*0.311 - 7.7; return v, 0.7 * v }), false},
+		{"parallel-scaled-by-1.9", set(func(i int) (float32, float32) { v := float32((i*29)%113)*0.0917 + 0.011; return 1.9 * v, v }), false},
 		{"subnormal", set(func(i int) (float32, float32) { return 1e-41, 3e-41 }), true},
 		{"tiny-squares-underflow", set(func(i int) (float32, float32) { return 1e-20, 3e-20 }), true},
 		{"large-squares-near-max", set(func(i int) (float32, float32) { return 1e19, -0.5e19 }), true},
@@ -172,9 +176,19 @@ type finding struct {
 type worker struct {
 	A, B     *arena
 	impls    map[string]space.SpaceImpl
+	spaces   []namedSpace
 	found    map[string]finding
 	calls    int
 	distinct map[string]bool
+}
+
+type namedSpace struct {
+	name string
+	s    space.Space
+}
+
+func allSpaces() []namedSpace {
+	return []namedSpace{{"euclidean", space.NewEuclidean()}, {"manhattan", space.NewManhattan()}, {"cosine", space.NewCosine()}}
 }
 
 const eps = 1.0 / (1 << 23)
@@ -189,6 +203,18 @@ func (w *worker) add(key, desc string, rp map[string]interface{}) {
 func (w *worker) check(a, b []float32, layout string, aoff, boff int, p pattern) {
 	n := len(a)
 	native := w.impls["native"]
+	// the distance the index sees (space.Space, whatever kernel the CPU selects) is pushed into a priority queue
+	// that refuses negative priorities: for ordinary values it must be >= 0 exactly, not up to rounding
+	if !p.extreme {
+		for _, sp := range w.spaces {
+			d, f := call(func() float32 { return sp.s.Distance(a, b) })
+			w.calls++
+			if f == nil && d < 0 {
+				w.add("negative:space:"+sp.name, fmt.Sprintf("space.%s Distance = %v < 0 (len=%d, pattern %s)", sp.name, d, n, p.name),
+					map[string]interface{}{"impl": "space", "metric": sp.name, "len": n, "layout": layout, "a_offset": aoff, "b_offset": boff, "pattern": p.name})
+			}
+		}
+	}
 	for _, m := range metrics() {
 		ref := m.ref(a, b)
 		nat, nf := call(func() float32 { return m.call(native, a, b) })
@@ -313,7 +339,7 @@ func main() {
 		go func() {
 			defer wg.Done()
 			debug.SetPanicOnFault(true)
-			w := &worker{A: newArena(), B: newArena(), impls: impls, found: map[string]finding{}}
+			w := &worker{A: newArena(), B: newArena(), impls: impls, spaces: allSpaces(), found: map[string]finding{}}
 			myCases := 0
 			for n := range jobs {
 				for _, p := range pats {
